@@ -560,6 +560,15 @@ class Frame:
             prim = self.ip.prims.get(cn)
             if prim is not None:
                 return prim(self, i, None, [self.eval(a) for a in args])
+            # a user-defined operator of the analysed sources (operator== of a key class, ...): interpret its body
+            ufn = self.ip.db.callee_fn(n)
+            if ufn is not None and ufn.body is not None and ufn.body >= 0 and ufn.rec and not (ufn.file or "").startswith("/usr/"):
+                from . import pipeline as _pl
+                if (ufn.file or "").startswith(_pl.REPO.rstrip("/") + "/") or "/verif/spec/" in (ufn.file or ""):
+                    vals_ = [self.eval(a) for a in args]
+                    if n.get("ismember"):
+                        return self.ip.call_fn(ufn, vals_[1:], this=vals_[0])
+                    return self.ip.call_fn(ufn, vals_)
             if op == "()" and len(args) >= 1:
                 cl_ = self._peek_closure(args[0])
                 if cl_ is None:
